@@ -37,6 +37,9 @@ def parseOp (s : String) : Option Op :=
   | ["fn", f] => do some (.fnm (← f.toNat?))
   | ["rmall"] => some .rmall
   | ["dest", o] => do some (.dest (← parseOid o))
+  -- `destco,o<k>` (k = the object itself): destruct(this_object()) followed by a call_out that f_call_out must refuse;
+  -- the LPC side prints a line only if it was not refused; for the model this is `dest`
+  | ["destco", o] => do some (.dest (← parseOid o))
   | ["err"] => some .err
   | ["reload"] => some .reload
   | ["usage"] => some .usage
